@@ -23,12 +23,12 @@ Section Round.
     P c n lv (mkin (append t r) p) = Ok (fst res, mkin r (snd res)).
 
   Definition Core (e : expr) : Prop :=
-    forall lay ctx w p r n, (ctx <= 7)%nat -> wfb w e = true ->
+    forall lay ctx w p r n, (ctx <= 8)%nat -> wfb w e = true ->
       (String.length (append (body_txt lay ctx e) r) < n)%nat -> cstop ctx e r ->
       parses n (prec e) (body_txt lay ctx e) r p (body_loc c lay ctx e p).
 
   Definition M (e : expr) : Prop :=
-    forall lay ctx w p r n, (ctx <= 7)%nat -> wfb w e = true ->
+    forall lay ctx w p r n, (ctx <= 8)%nat -> wfb w e = true ->
       (String.length (append (txt lay ctx e) r) < n)%nat -> mstop lay ctx e r ->
       parses n (lvl ctx) (txt lay ctx e) r p (loc c lay ctx e p).
 
@@ -70,7 +70,7 @@ Section Round.
   Section Wrap.
     Variables (e : expr) (lay : layout) (ctx : nat) (w : bool).
     Hypothesis HC : Core e.
-    Hypothesis Hctx : (ctx <= 7)%nat.
+    Hypothesis Hctx : (ctx <= 8)%nat.
     Hypothesis HW : wfb w e = true.
     Let L := lay [].
     Let par := Nat.ltb (prec e) ctx.
@@ -288,7 +288,7 @@ Section Cores.
     cbn [body_txt] in Hn. rewrite !app_assoc_s in Hn.
     set (cx := if open_end ch then 7%nat else 4%nat) in *.
     assert (Lv : lvl cx = 4%nat) by (subst cx; destruct (open_end ch); reflexivity).
-    assert (Cx : (cx <= 7)%nat) by (subst cx; destruct (open_end ch); lia).
+    assert (Cx : (cx <= 8)%nat) by (subst cx; destruct (open_end ch); lia).
     assert (MS : mstop (sub lay 0) cx ch
                    (append (gap_text (post_gap (nl_gap (lay []) 0))) (append (descr_text d) r))).
     { split; [rewrite Lv; apply st4_descr|]. intros B. subst cx. destruct (open_end ch) eqn:O.
@@ -434,25 +434,6 @@ Section Nary.
     - rewrite !length_app_s. pose proof (first_ok_len _ _ Fo). rewrite length_app_s in H. lia.
   Qed.
 
-  (** one round of the sub-word loop *)
-  Lemma sub_step : forall lay n k x rr q,
-      GoodM true x -> st 5 rr -> sublink x rr ->
-      (String.length (append (no_sep (S k)) (append (txt (sub lay (S k)) 5 x) rr)) < n)%nat ->
-      U c n (mkin (append (no_sep (S k)) (append (txt (sub lay (S k)) 5 x) rr)) q)
-      = Ok (fst (loc c (sub lay (S k)) 5 x (adv_str (no_sep (S k)) q)),
-            mkin rr (snd (loc c (sub lay (S k)) 5 x (adv_str (no_sep (S k)) q))))
-      /\ (String.length rr < String.length (append (no_sep (S k)) (append (txt (sub lay (S k)) 5 x) rr)))%nat.
-  Proof.
-    intros lay n k x rr q [Wx Mx] Sr Lk Hn. cbn [no_sep append adv_str] in *.
-    assert (MS : mstop (sub lay (S k)) 5 x rr).
-    { split; [exact Sr|]. intros _. split.
-      - intros O. apply Lk. apply open_end_inword; auto.
-      - intros Pl. apply Lk. exact Pl. }
-    assert (Fo : first_ok (txt (sub lay (S k)) 5 x) rr) by (apply (first_ok_any x _ 5%nat true); auto; lia).
-    split.
-    - apply (Mx (sub lay (S k)) 5%nat true _ rr n); auto; lia.
-    - pose proof (first_ok_len _ _ Fo). lia.
-  Qed.
 End Nary.
 
 (** *** n-ary nodes *)
@@ -482,19 +463,6 @@ Section NaryCores.
   Proof.
     intros. apply (chain_rest _ _ r (GoodM c w) (st 1) (fun _ _ => True)); auto; [|apply linked_trivial].
     intros k0 y rr [Wy My] Sr _. apply fb_sep_st1.
-  Qed.
-
-  Lemma sub_prop : forall lay k y rr, GoodM c true y -> st 5 rr -> sublink y rr ->
-      st 5 (append (no_sep (S k)) (append (txt (sub lay (S k)) 5 y) rr)).
-  Proof.
-    intros lay k y rr [Wy My] Sr Ly. cbn [no_sep append].
-    assert (Fo : first_ok (txt (sub lay (S k)) 5 y) rr).
-    { apply (first_ok_any y _ 5%nat true); [lia|exact Wy|]. split; [exact Sr|].
-      intros _. split.
-      - intros O. apply Ly. apply open_end_inword; auto.
-      - intros Pl. apply Ly. exact Pl. }
-    unfold st, c5. rewrite (first_ok_skips _ _ Fo). destruct Fo as (ch & s & _ & _ & D).
-    repeat split; intros; try lia; auto.
   Qed.
 
   Lemma core_seq : forall cs sp, Forall (M c) cs -> Core c (Sequence cs sp).
@@ -606,16 +574,65 @@ Section NaryCores.
     rewrite from_range_pspan. reflexivity.
   Qed.
 
-  Lemma flatten_loc_list : forall (lay' : nat -> layout) sepadv xs k q,
+  Lemma flatten_loc_sub : forall (layk : nat -> layout) xs k prev q,
       forallb (wfb true) xs = true ->
-      map flatten_expr (fst (loc_list (fun k f q => loc c (lay' k) 5 f q) sepadv k xs q))
-      = fst (loc_list (fun k f q => loc c (lay' k) 5 f q) sepadv k xs q).
+      map flatten_expr (fst (loc_sub (fun k cx f q => loc c (layk k) cx f q) k prev xs q))
+      = fst (loc_sub (fun k cx f q => loc c (layk k) cx f q) k prev xs q).
   Proof.
-    induction xs as [|x xs IH]; intros k q W; [reflexivity|].
-    cbn [forallb] in W. apply andb_true_iff in W as [Wx Wxs]. cbn [loc_list].
-    pose proof (flatten_loc c (lay' k) 5 x (match k with O => q | S _ => sepadv k q end) Wx) as Fx.
-    destruct (loc c (lay' k) 5 x _) as [x' q1]. specialize (IH (S k) q1 Wxs).
-    destruct (loc_list _ sepadv (S k) xs q1) as [rs q2]. cbn [fst map] in *. rewrite Fx, IH. reflexivity.
+    induction xs as [|x xs IH]; intros k prev q W; [reflexivity|].
+    cbn [forallb] in W. apply andb_true_iff in W as [Wx Wxs]. cbn [loc_sub].
+    pose proof (flatten_loc c (layk k) (factor_ctx prev x) x q Wx) as Fx.
+    destruct (loc c (layk k) (factor_ctx prev x) x q) as [x' q1].
+    specialize (IH (S k) (factor_open (factor_ctx prev x) x) q1 Wxs).
+    destruct (loc_sub _ (S k) (factor_open (factor_ctx prev x) x) xs q1) as [rs q2].
+    cbn [fst map] in *. rewrite Fx, IH. reflexivity.
+  Qed.
+
+  Lemma loc_sub_length : forall (g : nat -> nat -> expr -> pos -> expr * pos) xs k prev q,
+      List.length (fst (loc_sub g k prev xs q)) = List.length xs.
+  Proof.
+    induction xs as [|x xs IH]; intros; [reflexivity|]. cbn [loc_sub].
+    destruct (g k (factor_ctx prev x) x q) as [x' q1].
+    specialize (IH (S k) (factor_open (factor_ctx prev x) x) q1).
+    destruct (loc_sub g (S k) (factor_open (factor_ctx prev x) x) xs q1) as [rs q2].
+    cbn [fst List.length] in *. rewrite IH. reflexivity.
+  Qed.
+
+  Lemma steps_cons_inv : forall X (step : input -> pres X) i a l i2,
+      steps step i (a :: l) i2 ->
+      exists i1, step i = Ok (a, i1) /\ (String.length (rest i1) < String.length (rest i))%nat /\ steps step i1 l i2.
+  Proof. intros X step i a l i2 H. inversion H; subst. eauto. Qed.
+
+  Lemma steps_sub : forall (layk : nat -> layout) r n,
+      c4 r -> c5 r ->
+      forall xs k prev q,
+        Forall (GoodM c true) xs ->
+        (sub_last_open prev xs = true -> noq (skips r) = true) ->
+        (String.length (append (txt_sub (fun k cx f => txt (layk k) cx f) k prev xs) r) < n)%nat ->
+        steps (U c n) (mkin (append (txt_sub (fun k cx f => txt (layk k) cx f) k prev xs) r) q)
+              (fst (loc_sub (fun k cx f q => loc c (layk k) cx f q) k prev xs q))
+              (mkin r (snd (loc_sub (fun k cx f q => loc c (layk k) cx f q) k prev xs q))).
+  Proof.
+    intros layk r n R4 R5. induction xs as [|x xs IH]; intros k prev q G E Hn.
+    - cbn. constructor.
+    - inversion G as [|? ? [Wx Mx] Gxs]; subst. cbn [txt_sub loc_sub sub_last_open] in *.
+      set (cx := factor_ctx prev x) in *. set (prev' := factor_open cx x) in *.
+      rewrite app_assoc_s in *.
+      assert (Gf : Forall (fun y => wfb true y = true /\ FirstOk y) xs).
+      { eapply Forall_impl; [|exact Gxs]. intros y [Wy _]. split; auto. apply first_ok_any. }
+      destruct (sub_rest layk r R4 R5 xs (S k) prev' Gf E) as (S5 & Lk & _). cbv zeta in *.
+      set (T' := append (txt_sub (fun k0 cx0 f => txt (layk k0) cx0 f) (S k) prev' xs) r) in *.
+      assert (MS : mstop (layk k) cx x T') by (apply factor_mstop; auto).
+      assert (Cx : (cx <= 8)%nat) by (destruct (factor_ctx_cases prev x); subst cx; lia).
+      assert (Lv : lvl cx = 5%nat) by (destruct (factor_ctx_cases prev x) as [X|X]; subst cx; rewrite X; reflexivity).
+      assert (Fo : first_ok (txt (layk k) cx x) T') by (apply (first_ok_any x (layk k) cx true); auto).
+      pose proof (Mx (layk k) cx true q T' n Cx Wx Hn MS) as X. unfold parses in X. rewrite Lv in X. cbn [P] in X.
+      destruct (loc c (layk k) cx x q) as [x' q1] eqn:E1.
+      specialize (IH (S k) prev' q1 Gxs E).
+      destruct (loc_sub _ (S k) prev' xs q1) as [rs q2] eqn:E2.
+      cbn [fst snd] in *. econstructor; [exact X| |].
+      + cbn [rest]. pose proof (first_ok_len _ _ Fo). exact H.
+      + apply IH. rewrite length_app_s in Hn. unfold T' in *. lia.
   Qed.
 
   Lemma core_sub : forall root l sp,
@@ -625,55 +642,26 @@ Section NaryCores.
     cbn [prec] in Hst. cbn [wfb] in W. apply andb_true_iff in W as [W W3]. apply andb_true_iff in W as [Ww Wl].
     apply N.eqb_eq in Wl. subst l.
     destruct root as [| | |fs s0| | | | | |]; try discriminate. cbn [body_txt body_loc] in *.
-    apply andb_true_iff in W3 as [W3 Wadj]. apply andb_true_iff in W3 as [Wlen Wfs]. apply Nat.leb_le in Wlen.
+    apply andb_true_iff in W3 as [Wlen Wfs]. apply Nat.leb_le in Wlen.
     pose proof (goodM_of c true fs HM Wfs) as G.
-    destruct fs as [|x [|y ys]]; cbn [List.length] in Wlen; try lia.
-    inversion G as [|? ? Gx Gxs]; subst. destruct Gx as [Wx Mx].
-    set (lay0 := sub lay 0) in *.
-    set (f := fun k x => txt (sub lay0 k) 5 x) in *.
-    set (g := fun k x q => loc c (sub lay0 k) 5 x q).
-    set (xs := y :: ys) in *.
-    assert (S4 : st 4 r) by exact Hst.
-    assert (S5 : st 5 r) by (eapply st_mono; [|exact Hst]; lia).
-    assert (E : is_plain_lit (last (x :: xs) (Sequence [] (mkspan 0 0 0))) = true ->
-                lit_rest false r /\ noq (skips r) = true).
-    { intros Pl. split; [apply c4_lit_rest; apply S4; lia|]. apply Ex. cbn [open_end]. exact Pl. }
-    pose proof (sub_linked lay0 r (x :: xs) 0 _ Wadj Wfs ltac:(discriminate) E) as Lk.
-    cbn [linked] in Lk. destruct Lk as [Lk0 Lk]. fold f in Lk0, Lk.
-    cbn [txt_list append] in Hn |- *. rewrite app_assoc_s in Hn |- *.
-    change (f 0%nat x) with (txt (sub lay0 0) 5 x) in *.
-    assert (R1 : st 5 (append (txt_list f no_sep 1 xs) r)).
-    { apply (chain_rest f no_sep r (GoodM c true) (st 5) sublink); auto.
-      intros k0 y0 rr G0 Sr L0. apply (sub_prop lay0 k0 y0 rr G0 Sr L0). }
+    assert (R4 : c4 r) by (apply Hst; lia). assert (R5 : c5 r) by (apply Hst; lia).
+    pose proof (steps_sub (fun k => sub (sub lay 0) k) r n R4 R5 fs 0%nat false p G
+                  ltac:(intros O; apply Ex; cbn [open_end]; exact O) Hn) as St.
+    cbv beta in St.
+    pose proof (flatten_loc_sub (fun k => sub (sub lay 0) k) fs 0 false p Wfs) as Fl. cbv beta in Fl.
+    destruct (loc_sub (fun k cx f q => loc c (sub (sub lay 0) k) cx f q) 0 false fs p) as [fs' q2] eqn:E.
+    cbn [fst snd] in *.
     unfold SW, subword_sequence_expr. fold (U c n).
-    assert (MS : mstop (sub lay0 0) 5 x (append (txt_list f no_sep 1 xs) r)).
-    { split; [exact R1|]. intros _. split.
-      - intros O. apply Lk0. apply open_end_inword; auto.
-      - intros Pl. apply Lk0. exact Pl. }
-    pose proof (Mx (sub lay0 0) 5%nat true p _ n ltac:(lia) Wx Hn MS) as X.
-    unfold parses in X. cbn [lvl Nat.eqb P] in X. rewrite X. clear X.
-    change (fun (_ : nat) (q : pos) => q) with (fun (k : nat) (q : pos) => adv_str (no_sep k) q).
-    cbn [loc_list]. fold g. change (g 0%nat x p) with (loc c (sub lay0 0) 5 x p).
-    pose proof (flatten_loc c (sub lay0 0) 5 x p Wx) as Fx.
-    destruct (loc c (sub lay0 0) 5 x p) as [x' q1] eqn:E1. cbn [obind fst snd] in *.
-    assert (Hn1 : (String.length (append (txt_list f no_sep 1 xs) r) < n)%nat)
-      by (rewrite length_app_s in Hn; lia).
-    pose proof (steps_list f g no_sep r n (U c n) (GoodM c true) (st 5) sublink
-                  ltac:(intros k0 y0 rr G0 Sr L0; apply (sub_prop lay0 k0 y0 rr G0 Sr L0))
-                  ltac:(intros k0 y0 rr q0 G0 Sr L0 Hl; apply (sub_step c lay0 n k0 y0 rr q0 G0 Sr L0 Hl))
-                  xs 0%nat q1 Gxs Lk S5 Hn1) as St.
-    rewrite (loop_p_steps _ _ _ _ _ St).
-    2:{ apply unary_fails; cbn [rest]; apply S4; lia. }
-    2:{ cbn [rest]. exact Hn1. }
-    pose proof (loc_list_nonempty g (fun k q => adv_str (no_sep k) q) 1 y ys q1) as Ne.
-    fold xs in Ne.
-    assert (Wxs : forallb (wfb true) xs = true).
-    { cbn [forallb] in Wfs. apply andb_true_iff in Wfs as [_ Wfs]. exact Wfs. }
-    pose proof (flatten_loc_list (fun k => sub lay0 k) (fun k q => adv_str (no_sep k) q) xs 1 q1 Wxs) as Fl.
-    cbv beta in Fl. change (fun (k : nat) (f0 : expr) (q : pos) => loc c (sub lay0 k) 5 f0 q) with g in Fl.
-    destruct (loc_list g (fun k q => adv_str (no_sep k) q) 1 xs q1) as [more q2].
-    cbn [obind fst snd] in *. destruct more as [|m0 more]; [congruence|].
-    cbn [map] in *. rewrite Fx, Fl. rewrite from_range_pspan. reflexivity.
+    pose proof (loc_sub_length (fun k cx f q => loc c (sub (sub lay 0) k) cx f q) fs 0 false p) as Len.
+    rewrite E in Len. cbn [fst] in Len.
+    destruct fs' as [|x' [|m0 more]]; cbn [List.length] in Len; try lia.
+    destruct (steps_cons_inv _ _ _ _ _ _ St) as (i1 & Hx & Hlen & Hrest).
+    rewrite Hx. cbn [obind].
+    rewrite (loop_p_steps _ _ _ _ _ Hrest).
+    2:{ apply unary_fails; cbn [rest]; exact R4. }
+    2:{ cbn [rest] in *. lia. }
+    cbn [obind].
+    cbn [map] in Fl |- *. rewrite Fl. rewrite from_range_pspan. reflexivity.
   Qed.
 
   Definition MQ (e : expr) : Prop :=
@@ -701,7 +689,7 @@ Section NaryCores.
   (** The round trip for expressions: parsing the printed text at the level of its context gives
       the located tree and stops exactly at the end of the text. *)
   Theorem expr_roundtrip : forall e lay ctx w p r n,
-      (ctx <= 7)%nat -> wfb w e = true ->
+      (ctx <= 8)%nat -> wfb w e = true ->
       (String.length (append (txt lay ctx e) r) < n)%nat -> mstop lay ctx e r ->
       P c n (lvl ctx) (mkin (append (txt lay ctx e) r) p)
       = Ok (fst (loc c lay ctx e p), mkin r (snd (loc c lay ctx e p))).
